@@ -27,3 +27,8 @@ func VerifTopology(m *Machine) S {
 func VerifQueueProcessing(m *Machine) bool {
 	return m.queueProcessing.Load()
 }
+
+// VerifDisposing reports whether the disposal has been flagged.
+func VerifDisposing(m *Machine) bool {
+	return m.disposing.Load()
+}
